@@ -50,43 +50,57 @@ def rule_x1(F):
     if ci is None:
         r.missing("cli::cli_inner")
         return r
-    locs = ci.mir["locals"]
-    defs = mir.Defs(ci)
-    gs = mir.gates(ci, defs)
+    fam = _cli_family(F, ci)
     n = 0
-    for bi, t in mir.calls(ci):
-        d = t["dest"]
-        if len(d) != 1:
-            continue
-        ty = locs[d[0]]["ty"]
-        name = mir.callee(t)
-        if not ty.startswith("std::result::Result<"):
-            continue
-        if name.startswith("std::") or name.startswith("<std::") or "Try" in name or "FromResidual" in name or "clap" in name:
-            continue
-        n += 1
-        reads = local_reads(ci, d[0])
-        gated = [g for g in gs if any(c[0] == bi for c in g["chain"])]
-        consumed = sorted({x[0].split("::")[-1] for x in reads})
-        r.inst("%s" % hir.last(name) + " #%d" % n, {"call": name, "line": t["line"], "consumed_by": consumed, "checked": bool(gated)})
-        loud = any(x in ("unwrap", "expect") for x in consumed)
-        if not reads:
-            r.bad(ci.path, "%s result dropped" % hir.last(name), relfile(ci.file), t["line"], "the result of %s is ignored: the command would report success although this step failed" % hir.last(name))
-        elif not gated and not loud and d[0] != 0:
-            r.bad(ci.path, "%s result unchecked" % hir.last(name), relfile(ci.file), t["line"], "the result of %s never decides the command's outcome (consumed by %s)" % (hir.last(name), consumed))
+    for fb in fam:
+        locs = fb.mir["locals"]
+        defs = mir.Defs(fb)
+        gs = mir.gates(fb, defs)
+        for bi, t in mir.calls(fb):
+            d = t["dest"]
+            if len(d) != 1:
+                continue
+            ty = locs[d[0]]["ty"]
+            name = mir.callee(t)
+            if not ty.startswith("std::result::Result<"):
+                continue
+            if name.startswith("std::") or name.startswith("<std::") or "Try" in name or "FromResidual" in name or "clap" in name:
+                continue
+            n += 1
+            reads = local_reads(fb, d[0])
+            gated = [g for g in gs if any(c[0] == bi for c in g["chain"])]
+            consumed = sorted({x[0].split("::")[-1] for x in reads})
+            r.inst("%s" % hir.last(name) + " #%d" % n, {"call": name, "in": fb.path, "line": t["line"], "consumed_by": consumed, "checked": bool(gated)})
+            loud = any(x in ("unwrap", "expect") for x in consumed)
+            if not reads:
+                r.bad(fb.path, "%s result dropped" % hir.last(name), relfile(fb.file), t["line"], "the result of %s is ignored: the command would report success although this step failed" % hir.last(name))
+            elif not gated and not loud and d[0] != 0:
+                r.bad(fb.path, "%s result unchecked" % hir.last(name), relfile(fb.file), t["line"], "the result of %s never decides the command's outcome (consumed by %s)" % (hir.last(name), consumed))
     # run_tests failure -> Err
-    rt = [bi for bi, t in mir.calls(ci) if hir.last(mir.callee(t)) == "run_tests"]
+    rt = [bi for fb in fam for bi, t in mir.calls(fb) if hir.last(mir.callee(t)) == "run_tests"]
     if not rt:
         r.bad(ci.path, "run_tests", relfile(ci.file), ci.line, "the test command no longer runs the tests")
     # run: the function handle is called exactly once
-    calls = [bi for bi, t in mir.calls(ci) if mir.callee_def(t).startswith("codegen::TypedFunc") and hir.last(mir.callee_def(t)) in ("call", "call_tuple")]
+    calls = [(fb, bi) for fb in fam for bi, t in mir.calls(fb) if mir.callee_def(t).startswith("codegen::TypedFunc") and hir.last(mir.callee_def(t)) in ("call", "call_tuple")]
     r.inst("entry function calls", {"sites": len(calls)})
     if len(calls) != 1:
         r.bad(ci.path, "run once", relfile(ci.file), ci.line, "`run` must call the entry function exactly once (found %d call sites)" % len(calls))
     else:
-        # not inside a loop: the call block must not reach itself
-        if calls[0] in (mir.reachable_from(ci, calls[0]) - {calls[0]}) and calls[0] in {s for x in mir.reachable_from(ci, calls[0]) for s in mir.succs(ci.blocks[x])}:
-            r.bad(ci.path, "run once", relfile(ci.file), ci.line, "the entry function is called inside a loop")
+        # not inside a loop: neither the call block (in its function) nor the call of the helper that contains it (up to cli_inner)
+        fb, cb_ = calls[0]
+        chain = [(fb, cb_)]
+        cur = fb
+        for _ in range(3):
+            up = [(ub, bi) for ub in fam for bi, t in mir.calls(ub) if (mir.callee(t) or "") == cur.path]
+            if not up:
+                break
+            if len(up) > 1:
+                r.bad(ci.path, "run once", relfile(ci.file), ci.line, "the helper that calls the entry function is itself called from %d places" % len(up))
+            chain.append(up[0])
+            cur = up[0][0]
+        for xb, xbi in chain:
+            if xbi in {s_ for x in mir.reachable_from(xb, xbi) for s_ in mir.succs(xb.blocks[x])}:
+                r.bad(ci.path, "run once", relfile(ci.file), ci.line, "the entry function is called inside a loop")
     return r
 
 
@@ -524,6 +538,35 @@ def rule_x3(F):
     return r
 
 
+def _cli_nodes(F, node, kind, depth=2, _seen=None):
+    """nodes of `node`, continued into the functions of the `cli` module that it calls"""
+    _seen = _seen if _seen is not None else set()
+    for n in hir.walk(node):
+        if n.get("k") == kind:
+            yield n
+        c = hir.call_def(n) if n.get("k") in ("call", "mcall") else None
+        if depth > 0 and c and c.startswith("cli::") and c not in _seen and F.has(c):
+            _seen.add(c)
+            cb = F.body(c)
+            if cb is not None and cb.hir:
+                yield from _cli_nodes(F, cb.hir.get("value") or {}, kind, depth - 1, _seen)
+
+
+def _cli_family(F, root):
+    """cli_inner and the functions of the `cli` module it calls (transitively): the commands may be written out in helpers"""
+    out, work = [], [root]
+    while work:
+        b = work.pop()
+        if b is None or not b.mir or any(x.path == b.path for x in out):
+            continue
+        out.append(b)
+        for _, t in mir.calls(b):
+            c = mir.callee(t) or ""
+            if c.startswith("cli::") and c not in ("cli::cli", "cli::print_highlighted") and F.has(c):
+                work.append(F.body(c))
+    return out
+
+
 def rule_x4(F):
     """`roto check|test|run <path>` work on whatever the path is - a single file or a package directory: every sub-command loads
     its input with the loader that dispatches on file vs. directory (`FileTree::read`), none with a single-file loader (which reports
@@ -539,7 +582,8 @@ def rule_x4(F):
         return r
     for arm in ms[0]["arms"]:
         cmd = hir.last(hir.pat_paths(arm["pat"])[0]) if hir.pat_paths(arm["pat"]) else "?"
-        loaders = sorted({hir.last(hir.call_def(c) or "") for c in hir.nodes(arm["body"], "call") if "FileTree::" in (hir.call_def(c) or "")})
+        # the command's work may live in a private function of the CLI module (`Command::Test { file } => test_command(rt, file)?`)
+        loaders = sorted({hir.last(hir.call_def(c) or "") for c in _cli_nodes(F, arm["body"], "call") if "FileTree::" in (hir.call_def(c) or "")})
         if not loaders:
             continue
         r.inst("sub-command %s" % cmd, {"command": cmd, "loaders": loaders})
